@@ -386,3 +386,58 @@ func sortedKeys[V any](m map[string]V) []string {
 	sort.Strings(ks)
 	return ks
 }
+
+// splitArgs splits "(f a b c)" into its top-level arguments.
+func splitArgs(t string) (string, []string) {
+	if len(t) < 2 || t[0] != '(' {
+		return t, nil
+	}
+	body := t[1 : len(t)-1]
+	var parts []string
+	depth, start := 0, 0
+	inStr := false
+	for i := 0; i < len(body); i++ {
+		c := body[i]
+		switch {
+		case c == '"':
+			inStr = !inStr
+		case inStr:
+		case c == '(':
+			depth++
+		case c == ')':
+			depth--
+		case c == ' ' && depth == 0:
+			if i > start {
+				parts = append(parts, body[start:i])
+			}
+			start = i + 1
+		}
+	}
+	if start < len(body) {
+		parts = append(parts, body[start:])
+	}
+	if len(parts) == 0 {
+		return t, nil
+	}
+	return parts[0], parts[1:]
+}
+
+// sliceOff is (s!off sl), read off directly when sl is an explicit (mkS arr off len cap).
+func sliceOff(sl Term) Term {
+	if strings.HasPrefix(sl.S, "(mkS ") {
+		if f, as := splitArgs(sl.S); f == "mkS" && len(as) == 4 {
+			return T("Int", as[1])
+		}
+	}
+	return app("Int", "s!off", sl)
+}
+
+// ixTerm is the index off+i into the backing array of a slice. Kept as the uninterpreted (ix off i)
+// (defined by an axiom with that pattern) so that quantified statements about slice elements have a
+// trigger without arithmetic in it; folded when the offset is the literal 0.
+func ixTerm(off, i Term) Term {
+	if off.S == "0" {
+		return i
+	}
+	return T("Int", fmt.Sprintf("(ix %s %s)", off.S, i.S))
+}
